@@ -1,9 +1,54 @@
-"""C07 — decided on the server model; see lib/srvprops.py and coq/Props/C07.v"""
+"""C07 — client identities are well-formed, unique while live, and cannot be forged."""
+import os
+
+import serverlib as sl
 import srvprops
+from common import VERIF
 
 PROP = "C07"
-THEOREMS = ["C07_model_smoke"]
+THEOREMS = ["C07_alnum_is_not_space_nor_at", "C07_local_nid_wellformed", "C07_no_space_no_at", "C07_never_bare_domain", "C07_assigned_in_reachable_states", "C07_unique_while_live", "C07_needs_no_auth_witness", "C07_name_free_again", "C07_sender_identity_in_messages"]
+
+WS = [0x20, 0x09, 0x0A, 0x0B, 0x0C, 0x0D, 0x85, 0xA0, 0x1680, 0x2000, 0x2003, 0x200A, 0x2028, 0x2029, 0x202F, 0x205F, 0x3000]
+ALNUM = [0x41, 0x7A, 0x30, 0xE9, 0x3A9, 0x4E2D, 0x0661, 0x1D7D8, 0x10400, 0xAA, 0xB2, 0x2160]
+OTHER = [0x40, 0x2D, 0x2E, 0x5F, 0x21, 0x2F, 0x3D, 0x5C, 0x22, 0x1F600, 0x200B, 0xFEFF, 0x00AD, 0x0301, 0x7F, 0x01]
+
+
+def odd_name(r):
+    k = r.random()
+    cps = []
+    if k < 0.25:
+        cps = [r.choice(WS) for _ in range(r.randint(0, 2))] + [r.choice(ALNUM) for _ in range(r.randint(0, 4))] + [r.choice(WS) for _ in range(r.randint(0, 2))]
+    elif k < 0.5:
+        cps = [r.choice(ALNUM + OTHER + WS) for _ in range(r.randint(1, 6))]
+    elif k < 0.7:
+        cps = [r.choice(ALNUM) for _ in range(r.choice([1, 2, 64, 85, 86, 128, 255, 256, 257]))]
+    elif k < 0.85:
+        cps = [r.randrange(0x20, 0x3000) for _ in range(r.randint(1, 5))]
+    else:
+        cps = [r.choice([0x61, 0x62]), r.choice(OTHER + WS), r.choice([0x61, 0x62])]
+    cps = [c for c in cps if not (0xD800 <= c <= 0xDFFF) and c not in (0x0A, 0x00)]
+    return "".join(chr(c) for c in cps).encode("utf-8")
+
+
+def identity_histories(r, thorough):
+    cases = []
+    for _ in range(40 if thorough else 8):
+        cfg = sl.base_cfg(r, None)
+        cfg.update({"max_conns": 64})
+        ops = []
+        for k in range(1, (40 if thorough else 24)):
+            name = odd_name(r) if r.random() < 0.8 else r.choice([b"alice", b"bob", b" alice ", b"alice\t"])
+            if not name:
+                continue
+            ops.append({"t": "open", "k": k})
+            ops.append({"t": "send", "k": k, "bytes": sl.frame("CONNECT", [("version", 1), ("heartbeat_interval", 0)]).hex(), "script": []})
+            ops.append({"t": "send", "k": k, "bytes": sl.frame("IDENTIFY", [("username", name)]).hex(), "script": []})
+            if r.random() < 0.3:
+                ops.append({"t": "hangup", "k": k, "script": []})
+        cases.append({"cfg": cfg, "ops": ops})
+    return cases
 
 
 def run(tier, replay=None):
-    return srvprops.run(PROP, THEOREMS, tier, replay)
+    return srvprops.run(PROP, THEOREMS, tier, replay, extra_gen=identity_histories,
+                        rule_note="plus identity histories: IDENTIFY with usernames over Unicode whitespace / alphanumeric / punctuation / emoji / zero-width code points, padding, lengths around 256 bytes, name re-use after hang-up")
